@@ -319,4 +319,122 @@ theorem stmtRead_eq_of_frame {g g' : LGraph} (h : Frame g g') : Assemble.stmtRea
 theorem stmtWrite_eq_of_frame {g g' : LGraph} (h : Frame g g') : Assemble.stmtWrite g' = Assemble.stmtWrite g :=
   tagged_ds_eq_of_frame h .write
 
+
+/-! ### holder operations on the INSERT / CTAS target (shared by `Props/C13.lean` and `Props/C14.lean`) -/
+
+namespace TargetFrame
+open Holder
+
+theorem key_isCol (c : Column) : c.key.isCol = true := rfl
+
+/-- `add_write_column(*cols)` touches only column nodes / column edges -/
+theorem addWriteColumns_frame (g : LGraph) (cols : List Column) : Frame g (addWriteColumns g cols) := by
+  unfold addWriteColumns
+  cases (writeSet g).head? with
+  | none => exact Frame.refl g
+  | some t =>
+    apply Frame.foldl
+    intro ci _ g'
+    exact Frame.addEdge _ _ _ _ _ _ _ (Or.inr (key_isCol _))
+
+theorem frame_ite_removeNode (g : LGraph) (n : Node) (h : n.isCol = true) :
+    Frame g (if g.hasNode n then g.removeNode n else g) := by
+  split
+  · exact Frame.removeNode _ _ h
+  · exact Frame.refl _
+
+theorem mem_insertByIdx (x y : Node × Nat) : ∀ acc, y ∈ insertByIdx x acc → y = x ∨ y ∈ acc
+  | [], h => by simpa [insertByIdx] using h
+  | z :: r, h => by
+    simp only [insertByIdx] at h
+    split at h
+    · simpa using h
+    · rcases List.mem_cons.mp h with h | h
+      · exact Or.inr (by simp [h])
+      · rcases mem_insertByIdx x y r h with h | h
+        · exact Or.inl h
+        · exact Or.inr (by simp [h])
+
+theorem mem_sortByIdx (l : List (Node × Nat)) (y : Node × Nat) (h : y ∈ sortByIdx l) : y ∈ l := by
+  have gen : ∀ (l acc : List (Node × Nat)), y ∈ l.foldl (fun acc x => insertByIdx x acc) acc → y ∈ acc ∨ y ∈ l := by
+    intro l
+    induction l with
+    | nil => intro acc h; exact Or.inl h
+    | cons x r ih =>
+      intro acc h
+      rcases ih _ h with h | h
+      · rcases mem_insertByIdx x y acc h with h | h
+        · exact Or.inr (by simp [h])
+        · exact Or.inl h
+      · exact Or.inr (by simp [h])
+  rcases gen l [] h with h | h
+  · cases h
+  · exact h
+
+/-- when every edge of the holder ends in a column node, the write columns are column nodes -/
+theorem writeColumns_isCol (g : LGraph) (hE : ∀ e ∈ g.edges, e.2.isCol = true) :
+    ∀ k ∈ writeColumns g, k.isCol = true := by
+  intro k hk
+  unfold writeColumns at hk
+  split at hk
+  · cases hk
+  · rename_i t _
+    obtain ⟨⟨k', i⟩, hm, rfl⟩ := List.mem_map.mp hk
+    have hm' := mem_sortByIdx _ _ hm
+    obtain ⟨c, hc, hci⟩ := List.mem_map.mp hm'
+    have hck : c = k' := congrArg Prod.fst hci
+    subst hck
+    have hout := (List.mem_filter.mp hc).1
+    exact hE (.ds t, c) ((mem_outEdges g _ _).mp hout)
+
+theorem edgesToCols_addWriteColumns (g : LGraph) (cols : List Column) (hE : ∀ e ∈ g.edges, e.2.isCol = true) :
+    ∀ e ∈ (addWriteColumns g cols).edges, e.2.isCol = true := by
+  unfold addWriteColumns
+  cases (writeSet g).head? with
+  | none => exact hE
+  | some t =>
+    have gen : ∀ (tp : DS × String) (l : List (Column × Nat)) (G : LGraph), (∀ e ∈ G.edges, e.2.isCol = true) →
+        ∀ e ∈ (l.foldl (fun g ci => g.addEdge (.ds t) (ci.1.addParent tp).key .hasColumn (some ci.2) none
+          (some (.col (ci.1.addParent tp)))) G).edges, e.2.isCol = true := by
+      intro tp l
+      induction l with
+      | nil => intro G hG; exact hG
+      | cons ci r ih =>
+        intro G hG
+        simp only [List.foldl_cons]
+        apply ih
+        intro e he
+        rcases (mem_edges_addEdge _ _ _ _ _ _ _ _).mp he with h | h
+        · exact hG e h
+        · rw [h]; rfl
+    exact gen _ _ g hE
+
+/-- the target holder of an INSERT (provider's columns, then — repaired code — removal of the write columns and the
+    explicit list), written out so that it matches `InsertCols.targetHolder` and, after `patches/Stmt-D8.patch`,
+    `Walk.writeTargetHolder`: whatever the provider says, only column nodes and column edges are added to the bare target -/
+theorem target_frame {α : Type} (g0 : LGraph) (hE : g0.edges = []) (b : Bool) (provCols : List Column)
+    (f : α → List Column) (cs : Option α) :
+    Frame g0 (match cs with
+      | some c => addWriteColumns ((writeColumns (if b then addWriteColumns g0 provCols else g0)).foldl
+          (fun g n => if g.hasNode n then g.removeNode n else g) (if b then addWriteColumns g0 provCols else g0)) (f c)
+      | none => (if b then addWriteColumns g0 provCols else g0)) := by
+  have f1 : Frame g0 (if b then addWriteColumns g0 provCols else g0) := by
+    split
+    · exact addWriteColumns_frame g0 provCols
+    · exact Frame.refl g0
+  have e1 : ∀ e ∈ (if b then addWriteColumns g0 provCols else g0).edges, e.2.isCol = true := by
+    split
+    · exact edgesToCols_addWriteColumns g0 provCols (by simp [hE])
+    · simp [hE]
+  cases cs with
+  | none => exact f1
+  | some c =>
+    refine Frame.trans (Frame.trans f1 ?_) (addWriteColumns_frame _ (f c))
+    apply Frame.foldl
+    intro n hn g
+    exact frame_ite_removeNode g n (writeColumns_isCol _ e1 n hn)
+
+
+end TargetFrame
+
 end SqlLineage
